@@ -313,7 +313,20 @@ def varies_row(r, j, k, way, trace=None):
     ok = back.to_er7() == got and len(comp) == 1 and comp[0].to_er7() == text
     if trace is not None:
         trace.append('parsed back: %r, component read by name %r' % (back.to_er7(), [c.to_er7() for c in comp]))
-    return ok
+    if not ok or k != 0:
+        return ok
+    # a second component at a two-digit position of the same field (positions compare as numbers, not as text)
+    fld = getattr(seg, fname.lower())[0]
+    setattr(fld, 'varies_11', 'Y')
+    want2 = want + '^' * (11 - j) + 'Y'
+    got2 = seg.to_er7()
+    setattr(fld, 'varies_11', 'Z')          # replaced in place
+    got3 = seg.to_er7()
+    delattr(fld, 'varies_11')               # and gone again
+    got4 = seg.to_er7()
+    if trace is not None:
+        trace.append('+ varies_11 = Y -> %r (expected %r) ; = Z -> %r ; deleted -> %r' % (got2, want2, got3, got4))
+    return got2 == want2 and got3 == want2[:-1] + 'Z' and got4 == want
 
 
 def _ob_varies(r: int, j: int, k: int, way: int) -> bool:
